@@ -34,6 +34,7 @@ impl Engine for C06 {
             dup_id_pct: 3,
             mega_1_in: 0,
             twin_mega_1_in: 0,
+            many_1_in: 1500,
         };
         let mut records = g.gen(rng);
         // sometimes a few very long records so that lines straddle the 8 KiB
